@@ -37,8 +37,17 @@ def make_case(rng, i, tier):
     iv = rng.choice(INTERVALS) if rng.random() < 0.8 else rng.randint(-130, 130)
     asbar = rng.random() < 0.25
     spec = {"notes": notes, "extra": extra, "start": rng.choice(["abs", "rel", "both"])}
-    case = {"seq": spec, "interval": iv, "bar": asbar, "zone": zone,
-            "prefix": random_prefix(rng, n=(1, 3)) if (i % 4 == 3 and not asbar) else []}
+    prefix = []
+    if i % 4 == 3 and not asbar:
+        prefix = random_prefix(rng, n=(1, 3))
+        if rng.random() < 0.5:
+            # an earlier (non-wrapping) transposition, then material appended near a range limit, then the transposition
+            # under test: anything the library remembers about the pitches from the first call is stale by now
+            base = rng.choice([22, 23, 104, 106])
+            prefix = [{"op": "transpose", "k": rng.choice([1, -1, 2])},
+                      {"op": "concat_copy", "notes": [[0, base + j, 6 * j, 12, 50 + j] for j in range(rng.randint(1, 3))]}]
+            iv = rng.choice([3, 5, 7, -3, -5, -7, 13, -13])
+    case = {"seq": spec, "interval": iv, "bar": asbar, "zone": zone, "prefix": prefix}
     if asbar:
         # a 4/4 bar worth of material (duration <= 96), no signature events of its own
         spec["notes"] = [n for n in notes if n[2] + n[3] <= 96]
